@@ -3,12 +3,19 @@
    ExtrOcamlNativeString: [byte] -> OCaml [char] (256 constructors, listed in the stock file),
    [string] -> OCaml [string]. N/Z/positive/nat stay Coq's inductive types. *)
 From Coq Require Import Extraction ExtrOcamlBasic ExtrOcamlNativeString.
-From NfpmV Require Import Lib.Bytes Model.Path Model.Content Model.Prepare Model.Payload Spec.C05 Spec.C01 Spec.C08 Spec.C09 Spec.C03 Spec.C04.
+From NfpmV Require Import Lib.Bytes Model.Path Model.Content Model.Prepare Model.Payload Model.Meta Model.Version Spec.C05 Spec.C01 Spec.C08 Spec.C09 Spec.C03 Spec.C04 Spec.C02.
+From NfpmV Require Import Gen.ArchTables.
 From NfpmV Require Import Gen.FsPaths.
 Extraction Language OCaml.
+(* Coq's List.rev is the quadratic [rev l ++ [x]]; the models reverse 70 KB strings. OCaml's List.rev computes the
+   same function (rev_alt in the standard library). This is the only hand-written Extract Constant. *)
+Extract Constant List.rev => "List.rev".
 Extraction "model.ml"
   norm_file norm_dir as_rel as_explicit_rel to_nix ancestor_dirs
   prep check_C05 holds_C05 oracle_okb owned_paths
   payload_of check_C01 holds_C01 envelope_C01 lookup_hash tzero fi_empty
   check_C08 conffiles_model backups_model check_C09 model_scripts expected_scripts render_install sort_slots
-  check_C03 check_C04 check_names.
+  check_C03 check_C04 check_names
+  deb_control ipk_control apk_pkginfo arch_pkginfo rpm_meta check_C02 c02_clause_text arch_prerelease_dropped
+  arch_deb arch_rpm arch_apk arch_ipk arch_archlinux arch_doc gs
+  split_version semver_parse.
